@@ -140,6 +140,28 @@ pub fn run(ctx: &Ctx) -> Report {
                             sealed.push((b.bytes, c.clone(), format!("builder body{bi} {} fp={with_fp}", seal.iter().map(|o| o.to_text()).collect::<Vec<_>>().join("+"))));
                         }
                     }
+                    // the same program serialised with write_into() into a buffer that holds other
+                    // bytes already, as built and after into_owned() (what goes on the wire must be
+                    // what was sealed, whichever serialisation path the caller uses)
+                    if ci < 2 {
+                        let mut outs: Vec<Vec<u8>> = Vec::new();
+                        let n = p.ops.len();
+                        let _ = prog::execute(&p, |i, _, b| {
+                            if i + 1 == n {
+                                for owned in [false, true] {
+                                    let bb = if owned { b.clone().into_owned() } else { b.clone() };
+                                    let mut dest = vec![0xA5u8; bb.byte_len() + 7];
+                                    if let Ok(w) = bb.write_into(&mut dest) {
+                                        dest.truncate(w);
+                                        outs.push(dest);
+                                    }
+                                }
+                            }
+                        });
+                        for o in outs {
+                            sealed.push((o, c.clone(), format!("builder body{bi} write_into a used buffer")));
+                        }
+                    }
                 }
             }
         }
@@ -342,7 +364,7 @@ pub fn run(ctx: &Ctx) -> Report {
     Report {
         acc,
         exhaustive: true,
-        rule: "8 bodies x fingerprint yes/no x 8 credentials x {SHA-1, SHA-256, both} sealed by the real builder; reference-serialised messages with SHA-256 truncated to 12..36 bytes, MI256-before-MI order and mixed correctness; on each: every single-bit flip and every byte value at every position from offset 0 through the end of the last integrity attribute, plausible alternative HMAC values in each integrity attribute (other length fields, other ranges, the other hash), up to 25 near-miss keys (case, trailing space / NUL, prefixes of 16/20/32/63/64/65/128 bytes, other credential kind, swapped parts); decorated credentials (quotes, blanks, trailing dot, mixed case, non-ASCII in each part) with their cleaned forms as alternative keys; key-length sweep: short-term passwords of every length 0..=140 and long-term credentials with parts of 0..200 bytes x {SHA-1, SHA-256, both} x {builder, reference serialiser}; unsealed bodies x 8 credentials; distinct_nontrivial = sealed buffers".into(),
+        rule: "8 bodies x fingerprint yes/no x 8 credentials x {SHA-1, SHA-256, both} sealed by the real builder (build(), and write_into() a used buffer before / after into_owned()); reference-serialised messages with SHA-256 truncated to 12..36 bytes, MI256-before-MI order and mixed correctness; on each: every single-bit flip and every byte value at every position from offset 0 through the end of the last integrity attribute, plausible alternative HMAC values in each integrity attribute (other length fields, other ranges, the other hash), up to 25 near-miss keys (case, trailing space / NUL, prefixes of 16/20/32/63/64/65/128 bytes, other credential kind, swapped parts); decorated credentials (quotes, blanks, trailing dot, mixed case, non-ASCII in each part) with their cleaned forms as alternative keys; key-length sweep: short-term passwords of every length 0..=140 and long-term credentials with parts of 0..200 bytes x {SHA-1, SHA-256, both} x {builder, reference serialiser}; unsealed bodies x 8 credentials; distinct_nontrivial = sealed buffers".into(),
         bounds: json!({"sealed_buffers": n_sealed, "unsealed": unsealed.len(), "faults": if thorough { "single bit, all byte values, length-bit x any-bit pairs" } else { "single bit, all byte values" }}),
         assumptions: vec!["HMAC-SHA1/SHA-256 collision resistance (no forgery that needs to break the MAC is explored)".into(), "keys outside the alternative-key alphabet are not explored".into()],
         ..Default::default()
